@@ -11,6 +11,7 @@ import (
 	"path/filepath"
 	"strings"
 	"sync"
+	"syscall"
 
 	"verifharness/lib"
 )
@@ -120,6 +121,7 @@ func supervise(fl lib.Flags) {
 	defer os.Remove(inflight)
 	cmd := exec.Command(os.Args[0], os.Args[1:]...)
 	cmd.Env = append(os.Environ(), "C07_CHILD=1", "C07_INFLIGHT="+inflight)
+	cmd.SysProcAttr = &syscall.SysProcAttr{Pdeathsig: syscall.SIGKILL} // the child never outlives the supervisor (bin/check's timeout kills the supervisor)
 	cmd.Stdout = os.Stdout
 	tw := &tailWriter{w: os.Stderr}
 	cmd.Stderr = tw
